@@ -67,7 +67,9 @@ def setup(case, sc):
         src = {'geom': '2d', 'shape': [nT, nZ], 'il': [1, 1], 'xl': [1, 1], 'dt': 4000, 't0': 0, 'fmt': 5, 'ext': 0, 'cubeseed': 2, 'valkind': 'smooth',
                'hdr': {'seed': 4, 'nfields': 2, 'inside': True}, 'how2d': 'nonumbers'}
         s = conv.build_source(src, sc)
-        return (lambda out: conv.convert_segy(s['path'], out, rate, bs, detection=det2)), s, rate, bs
+        # the capacity is also what the converter itself derives from the machine's memory (and hands to the pipeline as queue_size)
+        mem2 = 2 * case['cap'] * nT * nZ * 4
+        return (lambda out: conv.convert_segy(s['path'], out, rate, bs, detection=det2, mem_limit=mem2)), s, rate, bs
     bs = (8, 8, -1) if case['blocks'] else (4, 4, -1)
     b0 = bs[0]
     nI = {1: b0 - 1, 2: b0 + 1, 3: 2 * b0 + 1}[ps]
@@ -80,7 +82,8 @@ def setup(case, sc):
     s = conv.build_source(src, sc)
     # 'exhaustive' drives the pipeline exactly like 'heuristic' (no in-place table patch) but skips the slow first/last-trace analysis
     det = 'thorough' if route == 'segy-thorough' else 'heuristic' if route == 'segy-heuristic' else 'exhaustive'
-    return (lambda out: conv.convert_segy(s['path'], out, rate, bs, reduce_iops=route == 'segy-iops', detection=det)), s, rate, bs
+    mem = 2 * case['cap'] * b0 * nX * nZ * 4
+    return (lambda out: conv.convert_segy(s['path'], out, rate, bs, reduce_iops=route == 'segy-iops', detection=det, mem_limit=mem)), s, rate, bs
 
 
 def run_one(job, out, chooser, cap):
@@ -186,6 +189,7 @@ def run_case(case, ctx):
     transitions = set()
     schedules = set()
     n_exec = 0
+    own_cap = False
     virt = [0, 0, 0]
     maxlen = 0
     complete = False
@@ -235,6 +239,8 @@ def run_case(case, ctx):
             return {'inconclusive': 'instrumentation not reached: %d queues, %d scheduled operations, %d recorded writes' % (len(S.queues), len(S.trace), len(rec.py)),
                     'counters': {'executions': 0}}
         n_exec += 1
+        if S.requested_maxsize and all(m == case['cap'] for m in S.requested_maxsize):
+            own_cap = True
         virt[0] += S.timeouts_fired
         virt[1] += S.timed_waits
         virt[2] += S.peeks + S.sleeps
@@ -275,6 +281,9 @@ def run_case(case, ctx):
     strata = ['route:' + case['route'], 'ps:%d' % case['ps'], 'cap:%d' % case['cap'], 'mode:' + case['mode'], 'layout:' + ('blocks' if case['blocks'] else 'sets')]
     if complete:
         strata.append('dfs-complete')
+    if own_cap:
+        # the converter derived this capacity itself (from the memory it was told the machine has) and passed it down as queue_size
+        strata.append('library-derived-cap:%d' % case['cap'])
     counters = {'executions': n_exec, 'abstract_states': len(visited), 'transitions': len(transitions), 'distinct_schedules': len(schedules),
                 'schedule_len_max': maxlen, 'virtual_timeouts_fired': virt[0], 'timed_condition_waits': virt[1], 'polling_observations': virt[2], 'dfs_complete': 1 if complete else 0, 'dfs_incomplete': 1 if case['mode'] == 'dfs' and not complete else 0}
     return {'violations': bad, 'counters': counters, 'strata': strata, 'key': case['id'], 'nontrivial': n_exec > 0,
@@ -289,7 +298,7 @@ def sample_view(case, res):
 def finalize(tier, cases, results, counters, strata):
     reasons = []
     need = ['route:numpy', 'route:segy', 'route:segy-thorough', 'route:2d', 'ps:1', 'ps:2', 'ps:3', 'cap:1', 'cap:2', 'cap:16', 'mode:dfs', 'mode:random', 'mode:pct',
-            'dfs-complete', 'layout:blocks']
+            'dfs-complete', 'layout:blocks', 'library-derived-cap:1', 'library-derived-cap:2', 'library-derived-cap:16']
     for s in need:
         if s not in strata:
             reasons.append('required stratum not hit: ' + s)
